@@ -13,6 +13,10 @@
  *   C <n> | <state>
  *   create <Type> <nameHex|-> <ioe> <templatesEnc> <attrsEnc> | now= parts= cfg= ok= parents= file= attrs= <state>
  *   delete <Type> <nameHex|-> <cascade> | found= ok= <state>
+ *   An operation line may end in the token `http`: the operation then goes through HttpHandler::ProcessRequest
+ *   (PUT /v1/objects/<plural>/<name> with a JSON body, DELETE /v1/objects/<plural>/<name>[?cascade=1]) with an ApiUser
+ *   holding permission "*"; cfg= is then computed by the harness with the same call the handler makes; ok=1 HTTP 200,
+ *   ok=0 HTTP 500, ok=x anything else; delete: found=0 ok=- on HTTP 404.
  *   ok: 1 true, 0 false, x exception escaped, - no call, c call not made because it is known to crash /repo (see WouldCrash)
  *   <state> = objs=<Type:nameHex:api:active:hash,...> items=<Type:nameHex,...> files=<hex,...> glob=<hash>
  *
@@ -36,6 +40,14 @@
 #include "config/expression.hpp"
 #include "remote/configobjectutility.hpp"
 #include "remote/configpackageutility.hpp"
+#include "remote/apiuser.hpp"
+#include "remote/httphandler.hpp"
+#include "remote/httpserverconnection.hpp"
+#include "remote/zone.hpp"
+#include "base/io-engine.hpp"
+#include "base/tlsstream.hpp"
+#include <boost/asio/spawn.hpp>
+#include <boost/beast/http.hpp>
 #include <boost/filesystem.hpp>
 #include <algorithm>
 #include <cmath>
@@ -256,6 +268,7 @@ static bool l_Flush = false;
 
 /* statistics (stderr only) */
 static std::map<std::string, std::array<long, 5>> l_Stat; /* type -> created, refused(0), exception(x), config refused(!), ok-but-absent */
+static long l_NHttp = 0;
 static long l_NCreate = 0, l_NDelete = 0, l_NDelOk = 0, l_NDelRefused = 0, l_NDelMissing = 0, l_NDelExc = 0, l_NCases = 0;
 
 static Type::Ptr TypeOf(const std::string& name)
@@ -439,6 +452,8 @@ static void LoadStatic()
 	}
 }
 
+static bool InitHttp();
+
 static void Setup()
 {
 	SetNow(1700000000.0);
@@ -469,6 +484,9 @@ static void Setup()
 	}
 
 	LoadStatic();
+	InitHttp();
+	if (Zone::GetLocalZone())
+		fprintf(stderr, "note: a local zone exists; http creates get a zone attribute\n");
 
 	/* the _api package (CreateObject would create it on first use) */
 	ConfigObjectUtility::CreateStorage();
@@ -581,6 +599,190 @@ static void Cleanup()
 	} catch (...) { }
 }
 
+/* ---------------------------------------------------------------- HTTP layer */
+
+static boost::asio::io_context l_Io;
+static Shared<AsioTlsStream>::Ptr l_Stream;
+static HttpServerConnection::Ptr l_Conn;
+static ApiUser::Ptr l_User;
+static bool l_HttpOk = false;
+
+static bool InitHttp()
+{
+	namespace asio = boost::asio;
+	using tcp = asio::ip::tcp;
+	try {
+		static asio::ssl::context ssl(asio::ssl::context::tls);
+		static tcp::acceptor acc(l_Io, tcp::endpoint(asio::ip::address_v4::loopback(), 0));
+		static tcp::socket peer(l_Io);
+		l_Stream = Shared<AsioTlsStream>::Make(l_Io, ssl);
+		l_Stream->lowest_layer().connect(acc.local_endpoint());
+		acc.accept(peer);
+		l_Conn = new HttpServerConnection("verif", false, l_Stream);
+		l_User = new ApiUser(); /* not registered: does not show up in the state */
+		l_User->SetName("c17-http");
+		l_User->SetPermissions(new Array({ String("*") }));
+		l_HttpOk = true;
+	} catch (const std::exception& ex) {
+		fprintf(stderr, "HTTP layer unavailable: %s\n", ex.what());
+		l_HttpOk = false;
+	}
+	return l_HttpOk;
+}
+
+static std::string UrlEnc(const std::string& s)
+{
+	std::string out;
+	char buf[4];
+	for (unsigned char c : s) {
+		if (isalnum(c) || c == '-' || c == '_' || c == '.') out += (char)c;
+		else { snprintf(buf, sizeof buf, "%%%02X", c); out += buf; }
+	}
+	return out;
+}
+
+static bool ValidUtf8(const std::string& s)
+{
+	size_t i = 0, n = s.size();
+	while (i < n) {
+		unsigned char c = s[i];
+		int len;
+		uint32_t cp;
+		if (c < 0x80) { i++; continue; }
+		else if ((c & 0xe0) == 0xc0) { len = 2; cp = c & 0x1f; }
+		else if ((c & 0xf0) == 0xe0) { len = 3; cp = c & 0x0f; }
+		else if ((c & 0xf8) == 0xf0) { len = 4; cp = c & 0x07; }
+		else return false;
+		if (i + len > n) return false;
+		for (int j = 1; j < len; j++) {
+			unsigned char d = s[i + j];
+			if ((d & 0xc0) != 0x80) return false;
+			cp = (cp << 6) | (d & 0x3f);
+		}
+		if ((len == 2 && cp < 0x80) || (len == 3 && cp < 0x800) || (len == 4 && cp < 0x10000) || cp > 0x10ffff ||
+			(cp >= 0xd800 && cp <= 0xdfff))
+			return false;
+		i += len;
+	}
+	return true;
+}
+
+/* Can the value be written as JSON (valid UTF-8 everywhere, finite numbers, no foreign objects)? */
+static bool JsonExpressible(const Value& v)
+{
+	switch (v.GetType()) {
+		case ValueEmpty: case ValueBoolean: return true;
+		case ValueNumber: return std::isfinite(v.Get<double>());
+		case ValueString: return ValidUtf8(v.Get<String>().GetData());
+		case ValueObject: break;
+	}
+	if (v.IsObjectType<Array>()) {
+		Array::Ptr a = v;
+		ObjectLock olock(a);
+		for (const Value& item : a)
+			if (!JsonExpressible(item)) return false;
+		return true;
+	}
+	if (v.IsObjectType<Dictionary>()) {
+		Dictionary::Ptr d = v;
+		ObjectLock olock(d);
+		for (const Dictionary::Pair& kv : d)
+			if (!ValidUtf8(kv.first.GetData()) || !JsonExpressible(kv.second)) return false;
+		return true;
+	}
+	return false;
+}
+
+static bool HttpName(const std::string& name)
+{
+	return !name.empty() && name.find('/') == std::string::npos && name.find('\0') == std::string::npos;
+}
+
+static void JsonStr(const std::string& s, std::string& out)
+{
+	out += '"';
+	char buf[8];
+	for (unsigned char c : s) {
+		if (c == '"') out += "\\\"";
+		else if (c == '\\') out += "\\\\";
+		else if (c < 0x20) { snprintf(buf, sizeof buf, "\\u%04x", c); out += buf; }
+		else out += (char)c;
+	}
+	out += '"';
+}
+
+static void JsonVal(const Value& v, std::string& out)
+{
+	switch (v.GetType()) {
+		case ValueEmpty: out += "null"; return;
+		case ValueBoolean: out += v.ToBool() ? "true" : "false"; return;
+		case ValueNumber: {
+			char buf[64];
+			snprintf(buf, sizeof buf, "%.17g", v.Get<double>());
+			out += buf;
+			return;
+		}
+		case ValueString: JsonStr(v.Get<String>().GetData(), out); return;
+		case ValueObject: break;
+	}
+	if (v.IsObjectType<Array>()) {
+		Array::Ptr a = v;
+		ObjectLock olock(a);
+		out += '[';
+		bool first = true;
+		for (const Value& item : a) {
+			if (!first) out += ',';
+			first = false;
+			JsonVal(item, out);
+		}
+		out += ']';
+		return;
+	}
+	if (v.IsObjectType<Dictionary>()) {
+		Dictionary::Ptr d = v;
+		ObjectLock olock(d);
+		out += '{';
+		bool first = true;
+		for (const Dictionary::Pair& kv : d) {
+			if (!first) out += ',';
+			first = false;
+			JsonStr(kv.first.GetData(), out);
+			out += ':';
+			JsonVal(kv.second, out);
+		}
+		out += '}';
+		return;
+	}
+	out += "null";
+}
+
+/* Sends one request through the production dispatcher; returns the HTTP status (599: an exception escaped). */
+static int HttpCall(boost::beast::http::verb verb, const std::string& target, const std::string& body)
+{
+	namespace http = boost::beast::http;
+	http::request<http::string_body> req{verb, target, 11};
+	req.set(http::field::accept, "application/json");
+	req.body() = body;
+	req.prepare_payload();
+	http::response<http::string_body> resp;
+	bool crashed = false;
+	IoEngine::SpawnCoroutine(l_Io, [&](boost::asio::yield_context yc) {
+		try {
+			HttpHandler::ProcessRequest(*l_Stream, l_User, req, resp, yc, *l_Conn);
+		} catch (const std::exception&) {
+			crashed = true;
+		}
+	});
+	l_Io.run();
+	l_Io.restart();
+	return crashed ? 599 : (int)resp.result_int();
+}
+
+static std::string PluralOf(const Type::Ptr& type)
+{
+	return type->GetPluralName().ToLower().GetData();
+}
+
 /* ---------------------------------------------------------------- operations */
 
 static void Emit(const std::string& line)
@@ -633,16 +835,18 @@ static bool WouldCrash(const Type::Ptr& type, const String& fullName, const Dict
 }
 
 static void DoCreate(const Type::Ptr& type, const std::string& name, bool ioe, const Array::Ptr& templates,
-	const Dictionary::Ptr& attrs)
+	const Dictionary::Ptr& attrs, bool viaHttp)
 {
 	l_OpIdx++;
 	l_NCreate++;
+	if (viaHttp)
+		l_NHttp++;
 	long long now = 1700000000LL + 64 * l_CaseNo + l_OpIdx;
 	SetNow((double)now);
 
 	std::string tn = type->GetName().GetData();
 	String fullName(name);
-	std::string head = "create " + tn + " " + NameTok(name) + " " + (ioe ? "1" : "0") + " " + EncS(templates) + " " + EncS(attrs);
+	std::string head = "create " + tn + " " + NameTok(name) + " " + (ioe ? "1" : "0") + " " + EncS(templates) + " " + EncS(attrs) + (viaHttp ? " http" : "");
 	if (l_Flush) {
 		fprintf(stderr, "%s\n", head.c_str());
 		fflush(stderr);
@@ -662,8 +866,21 @@ static void DoCreate(const Type::Ptr& type, const std::string& name, bool ioe, c
 	String config;
 	bool haveCfg = false;
 	try {
+		Dictionary::Ptr cattrs = attrs;
+		if (viaHttp) {
+			/* what CreateObjectHandler does to the attributes before it makes the same call */
+			cattrs = attrs->ShallowClone();
+			Zone::Ptr localZone = Zone::GetLocalZone();
+			if (localZone && !cattrs->Contains("zone"))
+				cattrs->Set("zone", localZone->GetName());
+			if (cattrs->Contains("groups")) {
+				Array::Ptr groups = cattrs->Get("groups"); /* throws like the handler if it is not an array */
+				if (groups)
+					cattrs->Set("groups", groups->Unique());
+			}
+		}
 		config = ConfigObjectUtility::CreateObjectConfig(type, fullName, ioe,
-			templates && templates->GetLength() > 0 ? templates : Array::Ptr(), attrs);
+			templates && templates->GetLength() > 0 ? templates : Array::Ptr(), cattrs);
 		haveCfg = true;
 		cfg = Hex(config.GetData());
 		if (cfg.empty())
@@ -674,6 +891,21 @@ static void DoCreate(const Type::Ptr& type, const std::string& name, bool ioe, c
 
 	if (haveCfg && WouldCrash(type, fullName, attrs)) {
 		ok = "c";
+	} else if (viaHttp) {
+		std::string body = "{\"attrs\":";
+		JsonVal(attrs, body);
+		if (templates && templates->GetLength() > 0) {
+			body += ",\"templates\":";
+			JsonVal(templates, body);
+		}
+		body += std::string(",\"ignore_on_error\":") + (ioe ? "true" : "false") + "}";
+		int status = HttpCall(boost::beast::http::verb::put, "/v1/objects/" + PluralOf(type) + "/" + UrlEnc(name), body);
+		if (haveCfg)
+			ok = status == 200 ? "1" : status == 500 ? "0" : "x";
+		else
+			ok = status == 500 ? "-" : "x";
+		if (getenv("VERIF_C17_ERRORS") && status != 200)
+			fprintf(stderr, "http create %s %s: %d\n", tn.c_str(), Hex(name).c_str(), status);
 	} else if (haveCfg) {
 		try {
 			Array::Ptr errors = new Array();
@@ -733,6 +965,16 @@ static void DoCreate(const Type::Ptr& type, const std::string& name, bool ioe, c
 		}
 	}
 
+	if (viaHttp && ok == "1" && obj && obj->GetPackage() == "_api") {
+		/* self-check: the file the handler wrote holds the text reported as cfg= */
+		try {
+			std::ifstream in(obj->GetDebugInfo().Path.CStr(), std::ios::binary);
+			std::string text((std::istreambuf_iterator<char>(in)), std::istreambuf_iterator<char>());
+			if (in && text != config.GetData())
+				fprintf(stderr, "WARNING case %lld op %d: config written by the http handler differs from cfg=\n", l_CaseNo, l_OpIdx);
+		} catch (...) { }
+	}
+
 	auto& st = l_Stat[tn];
 	if (ok == "1" && obj) st[0]++;
 	else if (ok == "1") st[4]++;
@@ -744,15 +986,17 @@ static void DoCreate(const Type::Ptr& type, const std::string& name, bool ioe, c
 		" file=" + file + " attrs=" + oattrs + " " + State());
 }
 
-static void DoDelete(const Type::Ptr& type, const std::string& name, bool cascade)
+static void DoDelete(const Type::Ptr& type, const std::string& name, bool cascade, bool viaHttp)
 {
 	l_OpIdx++;
 	l_NDelete++;
+	if (viaHttp)
+		l_NHttp++;
 	long long now = 1700000000LL + 64 * l_CaseNo + l_OpIdx;
 	SetNow((double)now);
 
 	std::string tn = type->GetName().GetData();
-	std::string head = "delete " + tn + " " + NameTok(name) + " " + (cascade ? "1" : "0");
+	std::string head = "delete " + tn + " " + NameTok(name) + " " + (cascade ? "1" : "0") + (viaHttp ? " http" : "");
 	if (l_Flush) {
 		fprintf(stderr, "%s\n", head.c_str());
 		fflush(stderr);
@@ -764,6 +1008,19 @@ static void DoDelete(const Type::Ptr& type, const std::string& name, bool cascad
 	} catch (...) { }
 
 	std::string ok = "-";
+	if (viaHttp) {
+		/* "cascade=0" would count as true (non-empty string), so the parameter is left out for a plain delete */
+		int status = HttpCall(boost::beast::http::verb::delete_,
+			"/v1/objects/" + PluralOf(type) + "/" + UrlEnc(name) + (cascade ? "?cascade=1" : ""), "");
+		try { Application::GetTP().Restart(); } catch (...) { }
+		bool found = status != 404;
+		if (!found) l_NDelMissing++;
+		else if (status == 200) { ok = "1"; l_NDelOk++; }
+		else if (status == 500) { ok = "0"; l_NDelRefused++; }
+		else { ok = "x"; l_NDelExc++; }
+		Emit(head + " | found=" + (found ? "1" : "0") + " ok=" + ok + " " + State());
+		return;
+	}
 	if (obj) {
 		try {
 			Array::Ptr errors = new Array();
@@ -828,7 +1085,8 @@ static void ExecLine(std::string line)
 		if (!endp || *endp || n < 0 || n > 100000000000LL) { fprintf(stderr, "bad C line\n"); return; }
 		BeginCase(n);
 	} else if (tok[0] == "create") {
-		if (tok.size() != 6) { fprintf(stderr, "bad create line (%zu tokens)\n", tok.size()); return; }
+		bool viaHttp = tok.size() == 7 && tok[6] == "http";
+		if (tok.size() != 6 && !viaHttp) { fprintf(stderr, "bad create line (%zu tokens)\n", tok.size()); return; }
 		Type::Ptr type = TypeOf(tok[1]);
 		std::string name;
 		Value tv, av;
@@ -838,29 +1096,43 @@ static void ExecLine(std::string line)
 			return;
 		}
 		Array::Ptr templates = tv.IsEmpty() ? Array::Ptr(new Array()) : Array::Ptr(tv);
-		DoCreate(type, name, tok[3] == "1", templates, av);
+		if (viaHttp && !(l_HttpOk && HttpName(name) && JsonExpressible(templates) && JsonExpressible(av))) {
+			fprintf(stderr, "create line cannot go through http\n");
+			return;
+		}
+		DoCreate(type, name, tok[3] == "1", templates, av, viaHttp);
 	} else if (tok[0] == "delete") {
-		if (tok.size() != 4) { fprintf(stderr, "bad delete line\n"); return; }
+		bool viaHttp = tok.size() == 5 && tok[4] == "http";
+		if (tok.size() != 4 && !viaHttp) { fprintf(stderr, "bad delete line\n"); return; }
 		Type::Ptr type = TypeOf(tok[1]);
 		std::string name;
 		if (!type || !NameFromTok(tok[2], name) || (tok[3] != "0" && tok[3] != "1")) {
 			fprintf(stderr, "bad delete line\n");
 			return;
 		}
-		DoDelete(type, name, tok[3] == "1");
+		if (viaHttp && !(l_HttpOk && HttpName(name))) {
+			fprintf(stderr, "delete line cannot go through http\n");
+			return;
+		}
+		DoDelete(type, name, tok[3] == "1", viaHttp);
 	}
 	/* everything else (T lines, comments) is skipped */
 }
 
-static void OpCreate(const std::string& type, const std::string& name, bool ioe, const Array::Ptr& templates, const Dictionary::Ptr& attrs)
+/* wantHttp is honoured only if the operation can be expressed as a request */
+static void OpCreate(const std::string& type, const std::string& name, bool ioe, const Array::Ptr& templates, const Dictionary::Ptr& attrs,
+	bool wantHttp = false)
 {
-	ExecLine("create " + type + " " + NameTok(name) + " " + (ioe ? "1" : "0") + " " + EncS(templates ? templates : Array::Ptr(new Array())) +
-		" " + EncS(attrs ? attrs : Dictionary::Ptr(new Dictionary())));
+	Array::Ptr t = templates ? templates : Array::Ptr(new Array());
+	Dictionary::Ptr a = attrs ? attrs : Dictionary::Ptr(new Dictionary());
+	bool viaHttp = wantHttp && l_HttpOk && HttpName(name) && JsonExpressible(t) && JsonExpressible(a);
+	ExecLine("create " + type + " " + NameTok(name) + " " + (ioe ? "1" : "0") + " " + EncS(t) + " " + EncS(a) + (viaHttp ? " http" : ""));
 }
 
-static void OpDelete(const std::string& type, const std::string& name, bool cascade)
+static void OpDelete(const std::string& type, const std::string& name, bool cascade, bool wantHttp = false)
 {
-	ExecLine("delete " + type + " " + NameTok(name) + " " + (cascade ? "1" : "0"));
+	bool viaHttp = wantHttp && l_HttpOk && HttpName(name);
+	ExecLine("delete " + type + " " + NameTok(name) + " " + (cascade ? "1" : "0") + (viaHttp ? " http" : ""));
 }
 
 static void OpCase(long long n)
@@ -1514,7 +1786,8 @@ static void GenCase(Rng& r, long long n)
 			Array::Ptr templates;
 			bool ioe;
 			std::string full = GenCreate(g, type, attrs, ioe, templates);
-			OpCreate(type, full, ioe, templates, attrs);
+			bool wantHttp = r.below(100) < 13;
+			OpCreate(type, full, ioe, templates, attrs, wantHttp);
 			continue;
 		}
 		int k = (int)r.below(100);
@@ -1554,7 +1827,9 @@ static void GenCase(Rng& r, long long n)
 			type = l_TypeNames[r.below(sizeof l_TypeNames / sizeof *l_TypeNames)];
 			name = r.coin() ? g.PoolName() : GenName(r);
 		}
-		OpDelete(type, name, r.below(100) < 45);
+		bool cascade = r.below(100) < 45;
+		bool wantHttp = r.below(100) < 13;
+		OpDelete(type, name, cascade, wantHttp);
 	}
 }
 
@@ -1626,6 +1901,14 @@ static long long Prelude()
 	OpCreate("Host", "v8", false, none, J(R"({"check_command":"scc","vars.a":1,"vars.b.c":"x"})"));
 
 
+	/* through the REST handlers */
+	OpCase(++n);
+	OpCreate("Host", "wh", false, none, J(R"({"check_command":"scc","address":"127.0.0.1","groups":["shg"],"vars":{"os":"Linux","n":0.5}})"), true);
+	OpCreate("Service", "wh!ws", false, none, J(R"({"check_command":"scc","vars":{"l":[true,null,"x"]}})"), true);
+	OpDelete("Host", "wh", false, true);
+	OpDelete("Host", "wh", true, true);
+	OpDelete("Host", "wh", true, true);
+
 	/* one create each: attributes which re-route the object, and a composite name with an empty part */
 	OpCase(++n);
 	OpCreate("Host", "r1", false, none, J(R"({"check_command":"scc","__name":"renamed"})"));
@@ -1696,6 +1979,7 @@ int main(int argc, char **argv)
 	Cleanup();
 	fflush(stdout);
 
+	fprintf(stderr, "STATS http_ops=%ld\n", l_NHttp);
 	fprintf(stderr, "STATS cases=%ld creates=%ld deletes=%ld del_ok=%ld del_refused=%ld del_missing=%ld del_exc=%ld\n",
 		l_NCases, l_NCreate, l_NDelete, l_NDelOk, l_NDelRefused, l_NDelMissing, l_NDelExc);
 	for (auto& kv : l_Stat)
